@@ -1,5 +1,6 @@
 import Vanguard.Props.C04
 import Vanguard.Lemmas.EndRelay
+import Vanguard.Lemmas.UnaryHead
 import Vanguard.Lemmas.UInt8
 import Vanguard.Gen.Facts
 /-!
@@ -29,9 +30,10 @@ import Vanguard.Gen.Facts
   * `unary_error_status_is_published`: the HTTP status of a unary Connect error response is the
     published status of its code.
 
-  Partial: that a unary Connect client's head is never sent before the end is known (the hypothesis
-  `CanTell` for that client form: its response is buffered) is not proved for whole runs; REST clients
-  are outside the e2e model.  The encodings (JSON error bodies, `Grpc-Status-Details-Bin`, percent
+  `CanTell` is no hypothesis on reachable states: `first_reported_end_reaches_client_in_every_run` and
+  `backend_trailer_status_reaches_client_at_close` state the relay for every state a handler script can
+  reach (a unary Connect client's head is never sent while the RPC is open: `UInv`, `Lemmas/UnaryHead.lean`).
+  Partial: REST clients are outside the e2e model.  The encodings (JSON error bodies, `Grpc-Status-Details-Bin`, percent
   coding of `Grpc-Message`: `percent_roundtrip`) are functions outside resp. leaf theorems of part one.
 -/
 namespace Vanguard.C04
@@ -85,6 +87,40 @@ theorem reported_end_is_final (w : World) (tb : Tables) (pl : HandlePlan) (scrip
   rw [rwClose_keeps_clientErr w tb _ _ hrun.1 (hrun.2 he1).2,
       runScript_keeps_clientErr w tb pl script total0 f1 _ hg1 he1]
   exact reportEnd_relays' w f.st e hg hopen ht
+
+/-! ### ... in every state a handler can reach (no hypothesis on the head)
+
+  `UInv` (`Lemmas/UnaryHead.lean`, on top of the frame lemmas `FL` of `Lemmas/FlushFrame.lean`): a client whose
+  end must be in the response head (unary Connect) never gets the head while the RPC is open - kept by every
+  reader, writer and handler operation.  So `CanTell` holds in every reachable open state and the relay
+  theorems hold there for all five client forms of the e2e model. -/
+
+/-- **Every run**: take any handler script (reads, header changes, `WriteHeader`, `Write` with any bytes,
+    `Flush`, `Close`), stopped anywhere; if the RPC is still open, the end reported next is what the client
+    reads - gRPC, gRPC-Web, Connect streaming and unary Connect alike. -/
+theorem first_reported_end_reaches_client_in_every_run (w : World) (tb : Tables) (pl : HandlePlan) (script : List BOp)
+    (total0 : Nat) (st : St) (skip : Bool) (rd : Reader) (e : RespEnd) (hrw : st.rw = {}) (hg : Good st) :
+    let st' := (runScript w tb pl script total0 { st := transcodeStartState st skip, rd := rd }).1.st
+    st'.op.cform ≠ .rest → st'.rw.endWritten = false →
+      (reportEnd w st' e).1.sink.clientErr st'.op.cform = e.err := by
+  intro st' hc hopen
+  have hg' : Good st' := (runScript_ev w tb pl script total0 _ (transcodeStartState_ev st skip hg).1).1
+  exact reportEnd_relays' w st' e hg' hopen (reachable_can_tell w tb pl script total0 st skip rd hrw hc hopen)
+
+/-- **The close of every run**: when `close` takes the end from the backend's HTTP trailers (gRPC backends), the
+    client reads that status - whatever the handler did before, for every client form of the e2e model. -/
+theorem backend_trailer_status_reaches_client_at_close (w : World) (tb : Tables) (pl : HandlePlan) (script : List BOp)
+    (total0 : Nat) (st : St) (skip : Bool) (rd : Reader) (e : RespEnd) (hrw : st.rw = {}) (hg : Good st) :
+    let st' := (runScript w tb pl script total0 { st := transcodeStartState st skip, rd := rd }).1.st
+    let s1 := (rwCloseWriter w tb (if st'.rw.headersWritten = true then (st', false) else rwWriteHeader w tb st' 200).1).1
+    s1.op.cform ≠ .rest → s1.rw.endWritten = false → (s1.rw.respMeta.getD {}).end = none →
+    s1.op.sform.extractEndFromTrailers tb (httpExtractTrailers s1.hdr (s1.rw.respMeta.getD {}).pendingTrailerKeys).1 = some e →
+      (rwCloseEnd w tb s1).1.sink.clientErr s1.op.cform = e.err := by
+  intro st' s1 hc hopen hrm hx
+  have hg' : Good st' := (runScript_ev w tb pl script total0 _ (transcodeStartState_ev st skip hg).1).1
+  have hu' : UInv st' := runScript_uinv w tb pl script total0 _ (start_uinv st skip hrw)
+  have hg1 : Good s1 := (Ev.trans (rwHeaderFirst_ev w tb st') (rwCloseWriter_ev w tb _) hg').1
+  exact rwCloseEnd_relays_trailers w tb s1 e hg1 hopen (close_can_tell w tb st' hu' hc hopen) hrm hx
 
 /-- The HTTP status of a unary Connect error response is the published status of the error's code
     (`addProtocolResponseHeaders` of the unary Connect client forms). -/
@@ -164,6 +200,18 @@ def xErr : RpcErr := { code := 5, msg := .text [0x6E, 0x6F], details := 2 }
     the e2e model can be told the end. -/
 example (c : ClientForm) (hc : c ≠ .rest) : Good (xSt c) ∧ (xSt c).rw.endWritten = false ∧ CanTell (xSt c) :=
   ⟨good_init _ _, rfl, hc, Or.inr rfl⟩
+
+/-- The hypotheses of the whole-run theorems hold for the state `ServeHTTP` starts from. -/
+example (c : ClientForm) : (xSt c).rw = {} ∧ Good (xSt c) := ⟨rfl, good_init _ _⟩
+
+/-- Kernel-evaluated: a unary Connect client in front of a gRPC backend that sent its head and one
+    complete message - the RPC is open, the client's head has not gone out, and an error reported
+    now is read back by the client. -/
+def xRun : St := (runScript fakeWorld {} ((xOp .connectPost).plan fakeWorld)
+  [.sethdr (s "Content-Type") (s "application/grpc+raw"), .status 200, .write [0, 0, 0, 0, 1, 7]] 0
+  { st := transcodeStartState (xSt .connectPost) false, rd := .raw }).1.st
+example : (xRun.rw.endWritten, xRun.rw.headersFlushed, xRun.rw.buf) = (false, false, some [7]) := by decide +kernel
+example : (reportEnd fakeWorld xRun { err := some xErr }).1.sink.clientErr .connectPost = some xErr := by decide +kernel
 
 /-- Kernel-evaluated instances: `not_found` with a message and two details, reported on a fresh
     response, is read back by clients of all five forms. -/
